@@ -350,7 +350,18 @@ def r_patch_of_nothing(i):
 
 @rule
 def r_patch_kind_mismatch(i):
-    kind = i.g.choice(['struct_as_union', 'union_as_struct', 'open_as_closed', 'closed_as_open'])
+    kind = i.g.choice(['struct_as_union', 'union_as_struct', 'open_as_closed', 'closed_as_open', 'not_a_type'])
+    if kind == 'not_a_type':
+        # a patch of something that is neither a struct nor a union (LR "Patching": patches apply to structs / unions)
+        what = i.g.choice(['alias', 'route', 'annotation', 'annotation_type'])
+        kw = i.g.choice(['struct', 'union', 'union_closed'])
+        if what == 'route':
+            name = i.route(i.fresh('zq_route'))
+        else:
+            name = i.fresh('Zp')
+            i.raw(_def_line(what, name))
+        i.raw([(0, 'patch %s %s' % (kw, name)), (1, 'zqf String?' if kw == 'struct' else 'zqt')])
+        return kind + '|' + what
     if kind == 'struct_as_union':
         # an existing patch of the same type would hide this one (second patch replaces the first,
         # reported by C02), so only unpatched types are used
@@ -708,6 +719,9 @@ def r_bad_type_arguments(i):
         ('missing-positional', 'List(min_items=1)'),
         ('too-many-positional', 'String("x")'), ('too-many-positional', 'Int32(1, 2)'),
         ('too-many-positional', 'Boolean(true)'), ('too-many-positional', 'List(String, 1)'),
+        # an optional parameter given by position *and* by keyword
+        ('positional-and-keyword', 'List(String, 1, min_items=2)'), ('positional-and-keyword', 'String(1, min_length=2)'),
+        ('positional-and-keyword', 'Int32(0, min_value=1)'), ('positional-and-keyword', 'Float64(0.5, max_value=1.5)'),
         ('unknown-kwarg', 'String(foo=1)'), ('unknown-kwarg', 'Int32(min_length=1)'),
         ('unknown-kwarg', 'Bytes(max_length=3)'), ('unknown-kwarg', 'Boolean(x=true)'),
         ('positional-as-kwarg', 'List(data_type=String)'), ('positional-as-kwarg', 'Timestamp(fmt="%Y")'),
